@@ -302,6 +302,13 @@ def check_limit_adapter(res, facts, trait, head, tname, inner_rem, chunk_m, adv_
                     xs = (canon(x), canon(("call", "core::slice::<impl [T]>::len", (strip_refs(x[2][0]),))) if how[0] == "len" else canon(x))
                     rels = relations_at(b, bi, facts, inline=True)
                     guarded = any(r[0] in ("le", "lt") and canon(r[1]) in xs and (lim(canon(r[2])) or is_min_of(canon(r[2]), lambda z: True, lim)) for r in rels)
+
+                    def clamped(e, d=0):
+                        # min(.., self.limit, ..), nested as one likes: bounded by the limit by construction
+                        e = canon(e)
+                        return d < 4 and isinstance(e, tuple) and e and e[0] == "call" and e[1].rsplit("::", 1)[-1] == "min" and len(e[2]) == 2 and \
+                            any(lim(canon(a)) or clamped(a, d + 1) for a in e[2])
+                    guarded = guarded or any(clamped(x_) for x_ in xs)
                     if not guarded:
                         probs.append("no dominating guard `count <= self.limit` (or <= remaining) before inner.%s" % m)
                     okw = [w for w in ws if isinstance(canon(w[2]), tuple) and canon(w[2])[:3] == ("bin", "Sub", ("field", ("deref", ("param", 1)), "limit")) and canon(w[2])[3] in xs]
@@ -731,6 +738,13 @@ def check_rw(res, facts):
                 probs.append("transfers something other than slice[..n]: %s" % fmt_expr(args[1]))
             if not buf_f(strip_refs(canon(args[0]))):
                 probs.append("%s is not called on self.buf" % xfer)
+        if probs and no_err(b):
+            sem = rw_semantic(facts, b, rem)
+            if sem is not None and not sem:
+                res.ok(key, b.loc(), "decided per path: the count returned is the bytes moved, bounded by %s() and the slice length and equal to one of them; a prefix of the slice is moved; no Err" % rem, nontrivial=True)
+                continue
+            if sem:
+                probs = sem
         if probs:
             res.bad(key, b.loc(), "; ".join(probs))
         else:
@@ -1080,19 +1094,144 @@ def check_has_overrides(res, facts):
     res.floor("has_remaining overrides outside the adapters", n, 2)
 
 
+def replace_tree(e, frm, to):
+    if e == frm:
+        return to
+    if isinstance(e, tuple):
+        return tuple(replace_tree(x, frm, to) if isinstance(x, tuple) else x for x in e)
+    return e
+
+
+def rw_measure(facts, b0):
+    """per control-flow path of an io adapter method (its own body, else the views with helpers spliced in): what went through `self.buf` and
+    what the method reports.  -> (problem | None, number of measured paths, [ (count, total, [(slice expr | None)], State) ]), or None when the
+    method cannot be measured (loops, transfers of unknown size)"""
+    from .pathstate import StatePathBuilder, root_of
+    from .flow import cfg_of as _cfg, expand_combinators, expand_slice_get
+    from .lin import State
+    buf_f = self_field("buf")
+    XFER = {"copy_to_slice": ("slice", 1), "try_copy_to_slice": ("slice", 1), "put_slice": ("slice", 1), "advance": ("int", 1), "advance_mut": ("int", 1),
+            "copy_to_bytes": ("int", 1), "put_bytes": ("int", 2)}
+    NEUTRAL = ("remaining", "remaining_mut", "has_remaining", "has_remaining_mut", "chunk", "chunk_mut", "chunks_vectored")
+    for b in [b0] + list(views(facts, b0)):
+        cfg = _cfg(b)
+        if any(cfg.reaches(i_, i_) for i_ in range(len(b.blocks)) if not b.blocks[i_]["cleanup"]):
+            return None
+        out = []
+        opaque = False
+        for path in enumerate_paths(b, limit=400):
+            sp = StatePathBuilder(b, facts, path, inline=False)
+
+            def slice_len(e, loc, depth=0):
+                e = canon(e)
+                while isinstance(e, tuple) and e and (e[0] in ("ref", "deref") or (e[0] == "cast" and "Unsize" in str(e[1]))):
+                    e = e[2] if e[0] == "cast" else e[1]
+                if depth > 6 or not isinstance(e, tuple) or not e:
+                    return None
+                if e[0] == "field" and isinstance(e[1], tuple) and e[1] and e[1][0] == "variant":
+                    g = e[1][1]
+                    while isinstance(g, tuple) and g and g[0] in ("ref", "deref"):
+                        g = g[1]
+                    if isinstance(g, tuple) and g and g[0] == "call" and g[1].rsplit("::", 1)[-1] in ("get", "get_mut") and len(g[2]) == 2:
+                        e = ("call", "index", g[2])        # the payload of s.get(range) is s[range]
+                if e[0] == "call":
+                    nm = e[1].rsplit("::", 1)[-1]
+                    if nm in ("index", "index_mut", "get_unchecked", "get_unchecked_mut") and len(e[2]) == 2 and isinstance(e[2][1], tuple) and e[2][1][0] == "agg":
+                        rng, ops = str(e[2][1][1]), e[2][1][2]
+                        base = slice_len(e[2][0], loc, depth + 1)
+                        if "RangeFull" in rng:
+                            return base
+                        if "RangeFrom" in rng:
+                            return ("bin", "Sub", base, ops[0]) if base is not None else None
+                        if "RangeTo" in rng:
+                            return ops[0]
+                        return ("bin", "Sub", ops[1], ops[0]) if len(ops) == 2 else None
+                    if nm in ("deref", "deref_mut", "as_mut_slice", "as_slice", "borrow", "borrow_mut", "as_mut", "as_ref") and len(e[2]) == 1 and "alloc::vec::Vec" in e[1]:
+                        r_ = root_of(e[2][0])
+                        return ("vecprop", "len", r_, sp.version(r_, loc))
+                    if nm in ("deref", "deref_mut") and len(e[2]) == 1:
+                        return ("call", "core::slice::<impl [T]>::len", (e,))
+                if e[0] == "param":
+                    ty = b.locals[e[1]]["ty"]
+                    if "alloc::vec::Vec" in ty:
+                        return ("vecprop", "len", e, sp.version(e, loc))
+                    return ("call", "core::slice::<impl [T]>::len", (e,))
+                return None
+            cases = [([], [], [], [])]          # (amounts, extra relations, slices, substitutions)
+            unknown = False
+            rems = []
+            for pb in path:
+                t = b.blocks[pb]["term"]
+                if t["k"] != "call" or not t["args"]:
+                    continue
+                fn = callee(t)
+                if fn is None:
+                    continue
+                loc = (pb, len(b.blocks[pb]["stmts"]))
+                recv = strip_refs(canon(sp.operand(t["args"][0], loc)))
+                r_ = fn.get("res") or {}
+                if recv in (("param", 1), ("deref", ("param", 1))) and r_.get("local") and b.locals[1]["ty"].startswith("&mut"):
+                    unknown = True          # a crate helper gets the whole adapter: what it moves is not visible here (seen in the inlined view)
+                    opaque = True
+                if not buf_f(recv):
+                    continue
+                nm = fn["name"]
+                if nm in NEUTRAL:
+                    if nm in ("remaining", "remaining_mut") and not t["dest"]["p"]:
+                        rems.append(canon(sp.local(t["dest"]["l"], (t["target"], 0))) if t.get("target") is not None else None)
+                    continue
+                if nm in XFER and len(t["args"]) > XFER[nm][1]:
+                    kind, i_ = XFER[nm]
+                    a_ = sp.operand(t["args"][i_], loc)
+                    if kind == "int":
+                        alts = [(canon(a_), [], None, None)]
+                    else:
+                        whole = canon(strip_refs(canon(a_)))
+                        ex = expand_combinators(whole, facts)
+                        alts = [(slice_len(v_, loc), list(x_), canon(v_), (whole, canon(v_))) for (v_, x_) in ex] if ex else [(slice_len(a_, loc), [], canon(a_), None)]
+                    if any(a[0] is None for a in alts):
+                        unknown = True
+                    else:
+                        cases = [(am + [a[0]], ex_ + a[1], sl + [a[2]], sb + ([a[3]] if a[3] else [])) for (am, ex_, sl, sb) in cases for a in alts]
+                else:
+                    unknown = True
+            if unknown:
+                continue
+            ret = canon(sp.local(0, (path[-1], len(b.blocks[path[-1]]["stmts"]))))
+            if not (isinstance(ret, tuple) and ret and ret[0] == "agg" and "Ok" in str(ret[1]) and ret[2]):
+                continue
+            for (amounts, extra, slices, subs) in cases:
+                cnt = ret[2][0]
+                for (frm, to) in subs:
+                    cnt = replace_tree(cnt, frm, to)
+                cx = cnt
+                while isinstance(cx, tuple) and cx and cx[0] == "cast":
+                    cx = cx[2]
+                if isinstance(cx, tuple) and cx and cx[0] == "call" and cx[1].rsplit("::", 1)[-1] == "len" and len(cx[2]) == 1:
+                    m_ = slice_len(cx[2][0], (path[-1], 0))
+                    if m_ is not None:
+                        cnt = m_
+                total = ("const", 0)
+                for x in amounts:
+                    total = ("bin", "Add", total, x) if total != ("const", 0) else x
+                rels = expand_slice_get([r for r in sp.path_relations() if r] + [(x[0], canon(x[1]), x[2]) for x in extra])
+                hyp = [r for r in rels if r and r[0] in ("lt", "le", "eq", "ne")] + sp.vec_facts()
+                st = State(hyp, facts=facts)
+                if st.refuted():
+                    continue
+                st.hyp = hyp
+                out.append((canon(cnt), canon(total), slices, st, path, [r for r in rems if r is not None]))
+        if out or not opaque:
+            return out
+    return []
+
+
 def check_rw_extra(res, facts):
     """every other method the Reader / Writer adapters implement from std::io::{Read, Write} themselves and that reports a byte count
     (`read_to_end`, `read_vectored`, `write_vectored`, ..): on every path the count returned is the number of bytes that went through
     `self.buf` on that path (copy_to_slice(s): len(s), advance(n) / copy_to_bytes(n) / put_bytes(_, n): n, put_slice(s): len(s)) - entailed
     from the state at the end of the path (Vec effects applied: resize, reserve, set_len; slices `&mut v[a..]` have length len(v) - a) in the
     linear domain.  Methods with loops are left to the dataflow rules (C9); a path with a transfer this rule cannot measure is not judged."""
-    from .pathstate import StatePathBuilder, root_of
-    from .flow import cfg_of as _cfg
-    from .lin import State
-    buf_f = self_field("buf")
-    XFER = {"copy_to_slice": ("slice", 1), "try_copy_to_slice": ("slice", 1), "put_slice": ("slice", 1), "advance": ("int", 1), "advance_mut": ("int", 1),
-            "copy_to_bytes": ("int", 1), "put_bytes": ("int", 2)}
-    NEUTRAL = ("remaining", "remaining_mut", "has_remaining", "has_remaining_mut", "chunk", "chunk_mut", "chunks_vectored")
     for (tr, head, known) in (("std::io::Read", "buf::reader::Reader", ("read",)), ("std::io::Write", "buf::writer::Writer", ("write", "flush"))):
         im = [i for i in facts.impls if i.get("trait") == tr and i["self_ty"].startswith(head)]
         if len(im) != 1:
@@ -1102,86 +1241,60 @@ def check_rw_extra(res, facts):
             if b is None or it["name"] in known or "usize" not in b.locals[0]["ty"]:
                 continue
             key = "%s::%s|count reported = bytes transferred" % (head.rsplit("::", 1)[-1], it["name"])
-            cfg = _cfg(b)
-            if any(cfg.reaches(i_, i_) for i_ in range(len(b.blocks)) if not b.blocks[i_]["cleanup"]):
+            ms = rw_measure(facts, b)
+            if ms is None:
                 res.ok(key, b.loc(), "has a loop: left to the cursor dataflow (C9)")
                 continue
             prob = None
-            n_paths = 0
-            for path in enumerate_paths(b, limit=400):
-                sp = StatePathBuilder(b, facts, path, inline=False)
-
-                def slice_len(e, loc, depth=0):
-                    e = canon(e)
-                    while isinstance(e, tuple) and e and e[0] in ("ref", "deref"):
-                        e = e[1]
-                    if depth > 6 or not isinstance(e, tuple) or not e:
-                        return None
-                    if e[0] == "call":
-                        nm = e[1].rsplit("::", 1)[-1]
-                        if nm in ("index", "index_mut") and len(e[2]) == 2 and isinstance(e[2][1], tuple) and e[2][1][0] == "agg":
-                            rng, ops = str(e[2][1][1]), e[2][1][2]
-                            base = slice_len(e[2][0], loc, depth + 1)
-                            if "RangeFull" in rng:
-                                return base
-                            if "RangeFrom" in rng:
-                                return ("bin", "Sub", base, ops[0]) if base is not None else None
-                            if "RangeTo" in rng:
-                                return ops[0]
-                            if rng.endswith("Range',)") or "Range" in rng:
-                                return ("bin", "Sub", ops[1], ops[0]) if len(ops) == 2 else None
-                        if nm in ("deref", "deref_mut", "as_mut_slice", "as_slice", "borrow", "borrow_mut", "as_mut", "as_ref") and len(e[2]) == 1 and "alloc::vec::Vec" in e[1]:
-                            r_ = root_of(e[2][0])
-                            return ("vecprop", "len", r_, sp.version(r_, loc))
-                    if e[0] == "param":
-                        ty = b.locals[e[1]]["ty"]
-                        if "alloc::vec::Vec" in ty:
-                            return ("vecprop", "len", e, sp.version(e, loc))
-                        return ("call", "core::slice::<impl [T]>::len", (e,))
-                    return None
-                amounts, unknown = [], False
-                for pb in path:
-                    t = b.blocks[pb]["term"]
-                    if t["k"] != "call" or not t["args"]:
-                        continue
-                    fn = callee(t)
-                    if fn is None:
-                        continue
-                    loc = (pb, len(b.blocks[pb]["stmts"]))
-                    recv = strip_refs(canon(sp.operand(t["args"][0], loc)))
-                    if not buf_f(recv):
-                        continue
-                    nm = fn["name"]
-                    if nm in NEUTRAL:
-                        continue
-                    if nm in XFER and len(t["args"]) > XFER[nm][1]:
-                        kind, i_ = XFER[nm]
-                        a_ = sp.operand(t["args"][i_], loc)
-                        amt = canon(a_) if kind == "int" else slice_len(a_, loc)
-                        if amt is None:
-                            unknown = True
-                        else:
-                            amounts.append(amt)
-                    else:
-                        unknown = True
-                if unknown:
-                    continue
-                ret = canon(sp.local(0, (path[-1], len(b.blocks[path[-1]]["stmts"]))))
-                if not (isinstance(ret, tuple) and ret and ret[0] == "agg" and "Ok" in str(ret[1]) and ret[2]):
-                    continue
-                n_paths += 1
-                total = ("const", 0)
-                for x in amounts:
-                    total = ("bin", "Add", total, x) if total != ("const", 0) else x
-                st = State([r for r in sp.path_relations() if r and r[0] in ("lt", "le", "eq", "ne")] + sp.vec_facts(), facts=facts)
-                if st.refuted():
-                    continue
-                if not st.entails(("eq", ret[2][0], total)):
-                    prob = "on the path bb%s the method reports %s but %s byte(s) went through self.buf" % ("->bb".join(str(x) for x in path), fmt_expr(ret[2][0])[:50], fmt_expr(canon(total))[:90])
+            for (n, total, slices, st, path, _rems) in ms:
+                if not st.entails(("eq", n, total)):
+                    prob = "on the path bb%s the method reports %s but %s byte(s) went through self.buf" % ("->bb".join(str(x) for x in path), fmt_expr(n)[:50], fmt_expr(total)[:90])
                     break
             if prob:
                 res.bad(key, b.loc(), prob + ": the count, the caller's buffer and the inner cursor disagree")
-            elif n_paths:
-                res.ok(key, b.loc(), "%d path(s): the count returned equals the bytes moved through self.buf" % n_paths, nontrivial=True)
+            elif ms:
+                res.ok(key, b.loc(), "%d path(s): the count returned equals the bytes moved through self.buf" % len(ms), nontrivial=True)
             else:
                 res.ok(key, b.loc(), "no path this clause can measure")
+
+
+def rw_semantic(facts, b, rem_m):
+    """Reader::read / Writer::write decided by what they do rather than by how they are spelt: on every path the count n returned is the number
+    of bytes moved through self.buf, n <= remaining, n <= slice.len(), n equals one of the two (so n = min), and what is moved is a prefix of
+    the caller's slice.  -> list of problems (empty: holds), or None when the method cannot be measured"""
+    ms = rw_measure(facts, b)
+    if not ms:
+        return None
+    rem = None
+    is_rem = ucall_on(rem_m, "buf")
+    ln = ("call", "core::slice::<impl [T]>::len", (("param", 2),))
+    for (n, total, slices, st, path, rems) in ms:
+        where = "on the path bb%s " % "->bb".join(str(x) for x in path)
+        if not st.entails(("eq", n, total)):
+            return [where + "the count %s is not the number of bytes moved (%s)" % (fmt_expr(n)[:40], fmt_expr(total)[:60])]
+        if not rems:
+            return [where + "%s() of the inner buffer is not consulted" % rem_m]
+        remx = rems[0]
+        if not (st.entails(("le", n, ln)) and st.entails(("le", n, remx))):
+            return [where + "the count %s is not bounded by both %s() and the slice length" % (fmt_expr(n)[:40], rem_m)]
+        from .lin import State
+        lo = State(st.hyp + [("lt", remx, ln)], facts=facts)
+        hi = State(st.hyp + [("le", ln, remx)], facts=facts)
+        if not ((lo.refuted() or lo.entails(("eq", n, remx))) and (hi.refuted() or hi.entails(("eq", n, ln)))):
+            return [where + "the count %s is not the minimum of %s() and the slice length" % (fmt_expr(n)[:40], rem_m)]
+        for sl in slices:
+            x = sl
+            while isinstance(x, tuple) and x and (x[0] in ("ref", "deref") or (x[0] == "cast")):
+                x = x[2] if x[0] == "cast" else x[1]
+            ok = x == ("param", 2)
+            if isinstance(x, tuple) and x and x[0] == "field" and isinstance(x[1], tuple) and x[1][0] == "variant":
+                g = strip_refs(canon(x[1][1]))
+                if isinstance(g, tuple) and g and g[0] == "call" and len(g[2]) == 2:
+                    x = ("call", "index", g[2])
+            if isinstance(x, tuple) and x and x[0] == "call" and x[1].rsplit("::", 1)[-1] in ("index", "index_mut", "get_unchecked", "get_unchecked_mut") and len(x[2]) == 2 \
+                    and strip_refs(canon(x[2][0])) == ("param", 2) and isinstance(x[2][1], tuple) and x[2][1][0] == "agg":
+                rng, ops = str(x[2][1][1]), x[2][1][2]
+                ok = "RangeTo" in rng or "RangeFull" in rng or (len(ops) == 2 and canon(ops[0]) == ("const", 0))
+            if not ok:
+                return [where + "what is moved is not a prefix of the caller's slice: %s" % fmt_expr(sl)[:70]]
+    return []
